@@ -118,6 +118,10 @@ def base_cfgs(tier, base_id, algos, reps, rng_free=False, seedoff=0, n_choices=(
                 prm = {"nu": rnd.choice([1, 0.5, 2.0]), "rho": rnd.choice([0.5, 0.7, 0.9])}
                 if algo in ("HCT", "VHCT"):
                     prm.update({"c": rnd.choice([0.1, 0.3]), "delta": rnd.choice([0.01, 0.1])})
+                if algo == "Zooming" and rep % 2 == 1:
+                    # slowly shrinking or large diameters: arms that are several refinements behind (work that is due
+                    # but done one step per call is where an extra call changes the run)
+                    prm = {"nu": rnd.choice([3.0, 5.0]), "rho": rnd.choice([0.9, 0.95])} if rep % 4 == 1 else {"nu": rnd.choice([1, 2.5]), "rho": rnd.choice([0.99, 0.995])}
             if algo in ("POO", "GPO", "PCT", "VPCT"):
                 prm = {"rhomax": rnd.choice([0.9, 0.87, 0.93]) if vary else 0.9, "base": rnd.choice(["T_HOO", "HCT", "VHCT"])}
             if algo == "VROOM":
